@@ -52,6 +52,29 @@ static void enumerateAll(const std::function<void(const Spec &)> &f) {
           f(s);
         }
   }
+  // pad-dominated designs: a few small movable cells and many zero-area fixed terminals around the rows, each tied to a
+  // movable cell (the movable area is smaller than the number of cells; averages per cell drop below one unit)
+  {
+    auto shapes = gpShapes(1);
+    auto sets = gpCellSets(1);
+    for (size_t gi = 0; gi < shapes.size(); gi += (gThorough ? 1 : 2))
+      for (int nPads : {12, 30}) {
+        const GpShape &g = shapes[gi];
+        Spec s = gpSpec(g, sets[gi % 2 ? 1 : 5], 0, 0, gi % 3);
+        int nMov = s.cells.size();
+        for (int k = 0; k < nPads; ++k) {
+          CellSpec pad; pad.w = 0; pad.h = 0; pad.fixed = true;
+          int side = k % 4, t = k / 4;
+          pad.x = side == 0 ? g.x0 - 3 : (side == 1 ? g.x0 + g.W + 3 : g.x0 + (t * 5) % std::max(1, g.W));
+          pad.y = side == 2 ? g.y0 - 3 : (side == 3 ? g.y0 + g.nY * g.rh + 3 : g.y0 + (t * 3) % std::max(1, g.nY * g.rh));
+          s.cells.push_back(pad);
+          NetSpec nt; nt.pins = {{k % nMov, 0, 0}, {nMov + k, 0, 0}};
+          s.nets.push_back(nt);
+        }
+        s.aux = 1;
+        f(s);
+      }
+  }
   for (auto &base : gpRepresentatives()) {
     Spec s = base;
     CellSpec z; z.w = 0; z.h = s.rows[0].maxY - s.rows[0].minY; z.x = s.rows[0].minX + 1; z.y = s.rows[0].minY;
